@@ -269,15 +269,6 @@ func (s *Sched) Install() {
 		}
 		return order
 	}
-	hook.SelectWaitFn = func() {
-		if t := s.Cur; t != nil && t.gid == curGID() {
-			// nothing ready: not worth running again before somebody else has made a step
-			gen := s.Steps
-			s.block("select", func() bool { return s.Steps > gen+1 || s.onlyPollersLeft(t) })
-			return
-		}
-		time.Sleep(50 * time.Microsecond)
-	}
 	hook.AccFn, hook.PoolEvent = nil, nil
 	if s.race != nil {
 		hook.AccFn = func(pkg, site int, keep any, addr, size uintptr, label string, write, isMap bool) {
@@ -295,7 +286,7 @@ func (s *Sched) Install() {
 
 func Uninstall() {
 	hook.YieldFn, hook.BlockFn, hook.LockEvent, hook.SeamFn, hook.AccFn, hook.PoolEvent = nil, nil, nil, nil, nil, nil
-	hook.GoFn, hook.PreFn, hook.PostFn, hook.SelectOrderFn, hook.SelectWaitFn, hook.WokeFn = nil, nil, nil, nil, nil, nil
+	hook.GoFn, hook.PreFn, hook.PostFn, hook.SelectOrderFn, hook.WokeFn = nil, nil, nil, nil, nil
 }
 
 // Run drives the tasks until all are done.
@@ -492,22 +483,18 @@ func (s *Sched) awaitStep(t *Task) {
 			}
 			return
 		case <-time.After(100 * time.Microsecond):
+			// one consistent look, under the lock that Post() needs: a task that has left the operation (and may be
+			// "blocked" handing the slot back to us) is no longer in-op; a task that is in-op and parked by the runtime
+			// is blocked in the operation itself
 			s.lk.Lock()
-			in := t.inOp
+			blocked := t.inOp && blockedGoroutines()[t.gid]
+			if blocked {
+				t.realBlocked = true
+			}
 			s.lk.Unlock()
-			if in && blockedGoroutines()[t.gid] {
-				// blocked - but inside the operation? The task may have left it (Post() clears inOp) and be waiting
-				// to hand the slot back to us right now: only a task that is still in-op is blocked in the operation.
-				s.lk.Lock()
-				still := t.inOp
-				if still {
-					t.realBlocked = true
-				}
-				s.lk.Unlock()
-				if still {
-					s.Probes["task_blocked_in_a_real_operation_of_generated_code"]++
-					return
-				}
+			if blocked {
+				s.Probes["task_blocked_in_a_real_operation_of_generated_code"]++
+				return
 			}
 		}
 	}
@@ -524,25 +511,18 @@ func (s *Sched) settle() {
 				transit = append(transit, t)
 			}
 		}
-		s.lk.Unlock()
-		if len(transit) == 0 {
-			return
-		}
-		dump := blockedGoroutines()
 		ok := true
-		s.lk.Lock()
-		for _, t := range transit {
-			if !t.postParked && !dump[t.gid] {
-				ok = false // woken, on its way to Post()
+		if len(transit) > 0 {
+			// the dump is taken under the lock Post() needs, so "parked" cannot change under our feet
+			dump := blockedGoroutines()
+			for _, t := range transit {
+				if !dump[t.gid] {
+					ok = false // woken, on its way to Post()
+				}
 			}
 		}
 		s.lk.Unlock()
 		if ok {
-			if Debug != nil {
-				for _, t := range transit {
-					Debug(fmt.Sprintf("  settle: %s parked=%v dump-blocked=%v where=%s", t.Name, t.postParked, dump[t.gid], goroutineWhere(t.gid)))
-				}
-			}
 			return
 		}
 		if spins > 200000 {
@@ -550,15 +530,6 @@ func (s *Sched) settle() {
 		}
 		time.Sleep(20 * time.Microsecond)
 	}
-}
-
-func (s *Sched) onlyPollersLeft(self *Task) bool {
-	for _, t := range s.Tasks {
-		if t != self && !t.Done && !(t.realBlocked && !t.postParked) && t.What != "select" {
-			return false
-		}
-	}
-	return true
 }
 
 // goroutineWhere: state and innermost non-runtime frames of one goroutine (diagnostics of a stall).
@@ -586,4 +557,16 @@ func goroutineWhere(gid int64) string {
 		}
 	}
 	return fmt.Sprint(out)
+}
+
+// LeakedBlocked counts tasks that are still blocked in a real operation of the generated code: their goroutines can
+// never be reclaimed and make every later goroutine dump slower.
+func (s *Sched) LeakedBlocked() int {
+	n := 0
+	for _, t := range s.Tasks {
+		if !t.Done && t.realBlocked && !t.postParked {
+			n++
+		}
+	}
+	return n
 }
